@@ -1,7 +1,7 @@
 (* One entry point for the OCaml runner: op name and byte-string arguments
    in, (result bytes, tag text) out.  All structure is decoded here, in Coq. *)
 From Coq Require Import NArith ZArith List Bool String.
-From GJ Require Import Base.Bytes Base.Show Model.Int Model.StrEnc Model.StrDec Model.Compact Spec.Json.
+From GJ Require Import Base.Bytes Base.Show Model.Int Model.StrEnc Model.StrDec Model.Compact Model.Iface Spec.Json.
 Import ListNotations.
 Open Scope N_scope.
 Open Scope string_scope.
@@ -56,4 +56,8 @@ Definition dispatch (op : list N) (args : list (list N)) : list N * list N :=
     (match parse_json (arg 2 args) with
      | Some (ts, rest) => 79 :: render_indent (arg 0 args) (arg 1 args) 0 None ts ++ rest
      | None => [69] end, [])
+  else if list_eqb op (str "c05.iface") then
+    (* arg0 = "1" when every number of the text fits float64 (strconv oracle) *)
+    (match iface_unmarshal (fun _ => N.eqb (nth 0 (arg 0 args) 48) 49) (arg 1 args) with
+     | COk _ => [65] | CErr => [82] | CFuel => str "fuel" | CStuck => str "stuck" end, [])
   else (str "no-model", []).
